@@ -195,6 +195,38 @@ def one_case(case):
         shutil.rmtree(d, ignore_errors=True)
 
 
+CMP_SRCS = [
+    "class A:\n    a: int = 1\n    b: str = 'x'\n", "class A:\n    a: int = 1\n    b: str = 'x'\n    c: float = 2.0\n", "class A:\n    a: int = 1\n",
+    "class A:\n    a: int = 2\n    b: str = 'x'\n", "class A:\n    '''doc'''\n    a: int = 1\n    b: str = 'x'\n",
+    "def f(a, b=1):\n    return a\n", "def f(a, b=1, c=2):\n    return a\n", "def f(a, b=1):\n    x = 1\n    return a\n", "def f(a, b=2):\n    return a\n",
+    "x = [1, 2]\n", "x = [1, 2, 3]\n", "x = (1, 2)\n", "x = {'a': 1}\n", "x = {'a': 1, 'b': 2}\n", "f(1, 2)\n", "f(1, 2, 3)\n", "f(1, k=2)\n", "f(1, k=2, j=3)\n",
+    "import os\n", "import os, sys\n", "from a import b\n", "from a import b, c\n", "", "pass\n", "x: int\n", "x: int = 1\n",
+]
+
+
+def cmp_ast_differential():
+    """
+    sync rewrites a target only when `not cmp_ast(original, replacement)`: cmp_ast must be equality of syntax trees.  Checked
+    against ast.dump equality on every ordered pair of a corpus that contains strict prefixes of each other (bodies, argument
+    lists, list / dict displays, import lists).  -> [(key, what, None)]
+    """
+    import cdd.shared.ast_utils as au
+
+    trees = [ast.parse(s_) for s_ in CMP_SRCS]
+    out = []
+    for (i, a), (j, b) in itertools.product(enumerate(trees), repeat=2):
+        want = ast.dump(a) == ast.dump(b)
+        try:
+            got = bool(au.cmp_ast(a, b))
+        except Exception as ex:
+            got = "raises %s" % type(ex).__name__
+        if got != want:
+            out.append((("cmp_ast-differs", "equal" if want else "different"), "cmp_ast says %r for %r vs %r, whose trees are %s" % (got, CMP_SRCS[i][:60], CMP_SRCS[j][:60], "equal" if want else "different"), None))
+            if len(out) > 3:
+                break
+    return out
+
+
 def shared_case(truth="function"):
     """The truth's module is also listed as the file of another kind whose target is absent from it (layout of the project's own example)"""
     d = tempfile.mkdtemp(prefix="cddvc_c12s_")
@@ -229,8 +261,11 @@ def shared_case(truth="function"):
 
 def main(tier, write_baseline=False):
     run = Run("C12", tier, "other", checker_cmd=common.checker_cmd("C12", tier))
-    run.trusted_base.update(["rule engine of checks/C12.py over the real ast (write frame, dominance, shape)"])
+    run.trusted_base.update(["rule engine of checks/C12.py over the real ast (write frame, dominance, shape)", "cddvc E1 (Seq views) for the block contract on cmp_ast"])
     refuted = []
+    from cddvc import e1
+
+    e1_refuted = e1.run_contracts(run, "contracts.C12")
     for name, ok, detail in rule_obligations():
         st = UNDECIDED if ok is None else (PROVED if ok else REFUTED)
         run.add("C12/" + name, st, "rule-engine", detail=detail)
@@ -239,6 +274,8 @@ def main(tier, write_baseline=False):
 
     def rule_replay(_name):
         # the clauses the frame rules carry (targets conformed, nothing else touched, second run a no-op), on the real CLI
+        for key, what, _x in cmp_ast_differential():
+            return {"case": ["cmp_ast", ["differential"], "short"], "what": "[class %s] %s" % ("|".join(key), what[:300])}
         for truth in ("function", "argparse_function"):
             for key, what, _x in shared_case(truth):
                 if key != "raises":
@@ -273,6 +310,8 @@ def main(tier, write_baseline=False):
         shared = [("shared-module", t) for t in ("function", "argparse_function")]
         res += [shared_case(t) for _s, t in shared]
         cases = cases + [(s_, (t,), "short") for s_, t in shared]
+        res.append(cmp_ast_differential())
+        cases = cases + [("cmp_ast", ("differential",), "short")]
         raised = 0
         for c, r in zip(cases, res):
             for key, what, _x in r:
@@ -282,13 +321,21 @@ def main(tier, write_baseline=False):
                 fails.setdefault(tuple(key), (c, what))
         run.bounded.append({
             "name": "the real CLI `python -m cdd sync` on triples of files, two consecutive runs (bounded, NOT counted as proved)",
-            "bound": "%d cases: truth in {class, function, argparse_function} x initial state of each of the three targets in {same as truth, other interface, missing, empty} (quick: seeded third) + long (>100 column) descriptions + 2 shared-module cases (the truth's module is also the file of another kind); oracle: re-parse with the matching parser, unrelated definitions kept, second run byte-identical" % len(cases),
+            "bound": "%d cases: truth in {class, function, argparse_function} x initial state of each of the three targets in {same as truth, other interface, missing, empty} (quick: seeded third) + long (>100 column) descriptions + 2 shared-module cases (the truth's module is also the file of another kind) + cmp_ast against ast.dump equality on all ordered pairs of a 26-tree corpus; oracle: re-parse with the matching parser, unrelated definitions kept, second run byte-identical" % len(cases),
             "rule": "one case = two CLI runs",
             "evaluations": len(cases), "distinct_nontrivial": len(cases) - raised,
             "failures": [{"class": "|".join(map(str, k)), "what": v[1][:250]} for k, v in list(fails.items())[:6]],
         })
     for name, detail in refuted:
         run.violation(name, detail, failing_input=rule_inputs.get(name), solver_output={"rule": detail})
+    seen_ = set()
+    for o in e1_refuted:
+        if o["name"] in seen_:
+            continue
+        seen_.add(o["name"])
+        d_ = cmp_ast_differential()
+        run.violation(o["name"], "obligation refuted by %s on path %s" % (o["backend"], " ".join(o["trace"])),
+                      failing_input=({"case": ["cmp_ast", ["differential"], "short"], "what": d_[0][1][:300]} if d_ else None), solver_output={"model": o["model"], "smt2": (o["smt2"] or "")[:3000]})
     for key, (case, what) in sorted(fails.items(), key=str):
         cls = "|".join(str(k) for k in key)
         run.violation("C12/bounded/%s" % key[0], "[class %s] %s" % (cls, what), key={"class": cls}, failing_input={"case": [case[0], list(case[1]), case[2]]})
@@ -303,6 +350,10 @@ def replay(path):
     print("replaying %s: obligation %s" % (path, d["failed_obligation"]))
     if not inp:
         return 1
+    if inp[0] == "cmp_ast":
+        r = cmp_ast_differential()
+        print(r)
+        return 1 if r else 0
     if inp[0] == "shared-module":
         r = shared_case(inp[1][0] if isinstance(inp[1], list) else inp[1])
         print(r)
